@@ -1,0 +1,60 @@
+//go:build verif
+
+// Contracts for the deductive verifier under /verif (gvc). This file contains no
+// declarations: it is comment-only and excluded from normal builds by the tag.
+
+package sliceio
+
+// ---- C17: library readers pass rows on without losing or inventing any ----
+// Ghost accounting (see /verif/trusted/sliceio.contracts): every Reader.Read call made through the interface adds
+// the number of rows it returned to rowsSupplied. A wrapping reader is transparent if, in each of its own Read
+// calls, the rows supplied by its inputs equal the rows it returns.
+
+//@ func sliceio.(*multiReader).Read (ctx, out) (n, err)
+//@   requires m != nil && forall(i, 0, len(m.q), m.q[i] != nil)
+//@   may_panic
+//@   ensures  bounds: 0 <= n && n <= out.len
+//@   ensures  no-row-dropped: rowsSupplied == old(rowsSupplied) + n
+//@   ensures  sticky: implies(old(m.err) != nil, n == 0 && err == old(m.err))
+//@   ensures  eof-means-all-done: implies(err == EOF && old(m.err) == nil, len(m.q) == 0)
+//@   ensures  error-recorded: implies(err != nil && err != EOF, m.err == err)
+//@   ensures  still-nonnil: forall(i, 0, len(m.q), m.q[i] != nil)
+//@   modifies m.q, m.err, m.q[:], rowsSupplied, sawRowsWithEOF, SReader.nreads, SReader.lastN, SReader.lastErr, ColMem, WCloser.zcloses, WCloser.zcloseErr
+//@   loop 1 invariant m != nil && m.err == old(m.err) && m.err == nil && rowsSupplied == old(rowsSupplied) && forall(i, 0, len(m.q), m.q[i] != nil) && (m.q.arr == old(m.q.arr)) && m.q.off >= old(m.q.off) && m.q.off + len(m.q) == old(m.q.off + len(m.q))
+
+//@ func sliceio.errReader.Read (ctx, f) (n, err)
+//@   ensures n == 0 && err == e.Err
+//@   modifies nothing
+
+//@ func sliceio.EmptyReader.Read
+//@   ensures result0 == 0 && result1 == EOF
+//@   modifies nothing
+
+//@ func sliceio.(*ClosingReader).Read (ctx, out) (n, err)
+//@   requires c != nil && c.r != nil
+//@   may_panic
+//@   ensures  transparent: n == c.r.lastN && err == c.r.lastErr && rowsSupplied == old(rowsSupplied) + n && c.r.nreads == old(c.r.nreads) + 1
+//@   ensures  closed-on-error: implies(err != nil, c.closed)
+//@   modifies c.closed, rowsSupplied, sawRowsWithEOF, SReader.nreads, SReader.lastN, SReader.lastErr, ColMem, WCloser.zcloses, WCloser.zcloseErr
+
+//@ func sliceio.ReadFull (ctx, r, f) (n, err)
+//@   requires r != nil && f.len >= 0 && f.len <= f.cap
+//@   may_panic
+//@   ensures  bounds: 0 <= n && n <= f.len
+//@   ensures  all-rows-counted: rowsSupplied == old(rowsSupplied) + n
+//@   ensures  full-unless-error: implies(err == nil, n == f.len)
+//@   ensures  error-is-the-readers: implies(err != nil, r.nreads > old(r.nreads) && err == r.lastErr)
+//@   ensures  empty-reads-are-not-eof: implies(err == EOF, r.lastErr == EOF)
+//@   modifies rowsSupplied, sawRowsWithEOF, SReader.nreads, SReader.lastN, SReader.lastErr, ColMem
+//@   loop 1 invariant 0 <= n && n <= len && len == f.len && rowsSupplied == old(rowsSupplied) + n && r.nreads >= old(r.nreads)
+
+//@ func sliceio.(*frameReader).Read (ctx, out) (n, err)
+//@   requires f != nil && wf(out) && wf(f.Frame) && distinctCols(out) && crossOK(out, f.Frame) && implies(compatible(out, f.Frame), sizesAgree(out, f.Frame)) && len(out.data) >= 1
+//@   flag nlarith
+//@   panics_if !compatible(out, f.Frame)
+//@   ensures  count: n == min(out.len, old(f.Frame.len))
+//@   ensures  rows: forall(k, 0, len(out.data), forall(r, out.off, out.off + n, ColMem[out.data[k].ptr][r] == old(ColMem[f.Frame.data[k].ptr][f.Frame.off + (r - out.off)])))
+//@   ensures  only-those-rows: forall(k, 0, len(out.data), forall(r, implies(r < out.off || r >= out.off + n, ColMem[out.data[k].ptr][r] == old(ColMem[out.data[k].ptr][r]))))
+//@   ensures  advanced: f.Frame.data == old(f.Frame.data) && f.Frame.off == old(f.Frame.off) + n && f.Frame.len == old(f.Frame.len) - n
+//@   ensures  eof-iff-exhausted: (err == EOF) == (f.Frame.len == 0) && (err == nil || err == EOF)
+//@   modifies ColMem, f.Frame
